@@ -78,6 +78,7 @@ def step_unit(kf):
     u.kf = kf
     u.extract_type(F, ['struct Pos'])
     u.extract_type(F, ['struct PositionCalculator'])
+    u.prelude('char_specs')
     u.trusted(SHIMS, 'pest Pair / str byte slicing shims')
     u.spec(SPEC, 'line/column semantics')
     u.extract_fn(F, ["impl<'a> PositionCalculator<'a>", 'fn new'], wrap_impl="<'a> PositionCalculator<'a>",
